@@ -189,11 +189,13 @@ def _run(c, drv):
             return _diff(key, got, spec, model, mask)
         got = [int(x) for x in r.tolist()]
         spec, model = core.ints(drv['spec']), core.ints(drv['model'])
+        # the comparable slots are the hypotheses of the oracle theorems evaluated by the driver (`ok=`): the exact sum is
+        # representable in the dtype (sum) / the label is non-empty (max, min); cross-checked against the dtype table here
+        mask = _bools(drv['ok'])
         if op == 'sum':
             lo, hi = gen.dt_range(c['dtype'])
-            mask = [lo <= s <= hi for s in spec]
-        else:
-            mask = [k > 0 for k in cnt]
+            if mask != [lo <= s <= hi for s in spec]:
+                raise core.Infra(f'C13: dtype range of the driver and of the harness disagree for {c["dtype"]}')
         return _diff(key, got, spec, model, mask)
     if fn in ('size', 'hist'):
         A = _arr(c['data'], c['dtype'], shape)
@@ -499,7 +501,11 @@ def _gen_hist(rng):
     n = int(np.prod(shape))
     if rng.random() < 0.5:
         dtype = rng.choice(['int32', 'int64', 'uint8', 'uint16', 'int16', 'uint32', 'bool', 'uint64', 'int8'])
-        data = _labels(rng, n, maxlab=rng.choice([1, 3, 9, 40]))
+        data = _labels(rng, n, maxlab=rng.choice([1, 3, 9, 40, 300, 70000]))
+        if dtype in ('uint8', 'int8'):
+            data = [v % 128 for v in data]
+        elif dtype in ('uint16', 'int16'):
+            data = [v % 32768 for v in data]
         if dtype == 'bool':
             data = [int(v != 0) for v in data]
         elif dtype in ('int64', 'uint64') and rng.random() < 0.25:
